@@ -24,8 +24,11 @@ store = {n: [] for n in NAMES}
 seen = {n: 0 for n in NAMES}
 rng_res = np.random.default_rng(12345)
 PAIR = ("moments", "unphased_moments", "mutation_moments", "mutation_unphased_moments")
-special = {n: [] for n in PAIR}
-seen_special = {n: 0 for n in PAIR}
+# functions whose first argument is the age of a fixed node
+FIXED = ("rootward_moments", "mutation_rootward_moments", "leafward_moments", "mutation_leafward_moments",
+         "sideways_moments", "mutation_sideways_moments", "mutation_edge_moments", "mutation_block_moments")
+special = {n: [] for n in PAIR + FIXED}
+seen_special = {n: 0 for n in PAIR + FIXED}
 
 
 def wrap(name):
@@ -44,6 +47,12 @@ def wrap(name):
                 if abs(1 - z) < 1.2e-5 or z < -1e5:
                     special[name].append(item)
                     seen_special[name] += 1
+        if name in FIXED and len(special[name]) < 40:
+            # fixed ages far from 1 (the problem posed in very small or very large time units)
+            t0 = item[0][0]
+            if 0.0 < t0 < 1e-6 or t0 > 1e8:
+                special[name].append(item)
+                seen_special[name] += 1
         if len(store[name]) < CAP:
             store[name].append(item)
         else:
@@ -120,7 +129,7 @@ def main(path, seed, nruns):
     rng = np.random.default_rng(seed)
     runs = 0
     for k in range(nruns):
-        kind = [0, 1, 2, 3, 4, 5, 6, 7, 7, 6, 7, 3][k % 12]
+        kind = [0, 1, 2, 3, 4, 5, 6, 7, 7, 6, 4, 3][k % 12]
         try:
             if kind == 6:
                 ts, r = uneven_spans(rng)
@@ -148,17 +157,22 @@ def main(path, seed, nruns):
                 ts, r = zoo.any_input(rng, allow_inferred=False)
                 kw = {}
             scale = float(rng.choice([1e-3, 1.0, 1.0, 1e4]))
+            if kind in (1, 2) and rng.random() < 0.5:
+                # the same problem in very small / very large time units (fixed child ages far from 1)
+                tc = float(rng.choice([1e-12, 1e-10, 1e-6, 1e6]))
+                ts = zoo.rescale_time(ts, tc)
+                scale *= tc
             tsdate.variational_gamma(ts, mutation_rate=common.default_mu(ts, r) / scale,
                                      max_iterations=int(rng.choice([3, 10, 25])), rescaling_intervals=0,
                                      max_shape=float(rng.choice([10.0, 1000.0])), **kw)
             runs += 1
         except Exception:
             pass
-    for n in PAIR:
+    for n in PAIR + FIXED:
         store[n] = special[n] + store[n]
     with open(path, "w") as f:
         json.dump({"store": store, "seen": seen, "runs": runs, "near_boundary_events": seen_special,
-                   "n_special": {n: len(special[n]) for n in PAIR}}, f)
+                   "n_special": {n: len(special[n]) for n in PAIR + FIXED}}, f)
     print("C18HARVEST", json.dumps(seen))
 
 
